@@ -45,24 +45,47 @@ theorem foldl_readDos2Unix_passed (cs : List Bytes) : ∀ s : Stream,
   | nil => intro s; simp
   | cons c r ih => intro s; simp [List.foldl_cons, ih, readDos2Unix]
 
+theorem foldl_readDos2Unix_total (cs : List Bytes) : ∀ s : Stream,
+    (cs.foldl readDos2Unix s).total = s.total + cs.flatten.length := by
+  induction cs with
+  | nil => intro s; simp
+  | cons c r ih =>
+    intro s
+    simp only [List.foldl_cons, ih, List.flatten_cons, List.length_append]
+    simp [readDos2Unix, Nat.add_assoc]
+
+/-- **pass-through and count, every stream class**: whatever the algorithm name — the legacy text-normalising
+    one included — the chunks handed on are exactly the chunks read and `total_read` is the number of bytes
+    read (not the number of bytes hashed) -/
+theorem passthrough_all (name : String) (cs : List Bytes) :
+    (runStream name cs).passed = cs ∧ (runStream name cs).total = cs.flatten.length := by
+  cases hn : isDos2Unix name with
+  | false => exact passthrough name hn cs
+  | true =>
+    unfold runStream readStep
+    simp only [hn, if_true]
+    constructor
+    · simpa using foldl_readDos2Unix_passed cs {}
+    · rw [foldl_readDos2Unix_total]; simp
+
 /-- the legacy text-normalising stream never alters the bytes passed through -/
-theorem dos2unix_passthrough_raw (cs : List Bytes) : (runStream "md5-dos2unix" cs).passed = cs := by
+theorem dos2unix_passthrough_raw (name : String) (hn : isDos2Unix name = true) (cs : List Bytes) :
+    (runStream name cs).passed = cs := by
   unfold runStream readStep
-  have : isDos2Unix "md5-dos2unix" = true := by decide
-  simp only [this, if_true]
+  simp only [hn, if_true]
   simpa using foldl_readDos2Unix_passed cs {}
 
 /-- a file that fits one read: digest of the normalised bytes if sniffed as text, raw otherwise -/
-theorem dos2unix_single_read {δ : Type} (H : Bytes → δ) (c : Bytes) (hc : c ≠ []) :
-    digest H (runStream "md5-dos2unix" [c]) =
+theorem dos2unix_single_read {δ : Type} (H : Bytes → δ) (name : String) (hn : isDos2Unix name = true)
+    (c : Bytes) (hc : c ≠ []) :
+    digest H (runStream name [c]) =
       H (if isTextBlock (c.take CHUNK) then dos2unix c else c) := by
-  have : isDos2Unix "md5-dos2unix" = true := by decide
   have hce : c.isEmpty = false := by cases c <;> simp_all
-  simp [runStream, readStep, this, readDos2Unix, digest, hce]
+  simp [runStream, readStep, hn, readDos2Unix, digest, hce]
 
-theorem binary_untouched {δ : Type} (H : Bytes → δ) (c : Bytes) (hc : c ≠ [])
-    (hb : isTextBlock (c.take CHUNK) = false) : digest H (runStream "md5-dos2unix" [c]) = H c := by
-  rw [dos2unix_single_read H c hc]; simp [hb]
+theorem binary_untouched {δ : Type} (H : Bytes → δ) (name : String) (hn : isDos2Unix name = true) (c : Bytes) (hc : c ≠ [])
+    (hb : isTextBlock (c.take CHUNK) = false) : digest H (runStream name [c]) = H c := by
+  rw [dos2unix_single_read H name hn c hc]; simp [hb]
 
 theorem unix2dos_head (r : Bytes) : ∀ x t, unix2dos r = x :: t → x ≠ 10 := by
   intro x t h
@@ -121,16 +144,17 @@ theorem dos2unix_of_CRLFfree (u : Bytes) (h : CRLFfree u = true) : dos2unix u = 
           · right; intro t' e; simp at e; exact hcd ⟨hc, e.1⟩
           · left; exact hc), ih h']
 
-/-- **CRLF and LF variants of a text file that fits one read get the same digest** -/
-theorem crlf_lf_same_digest {δ : Type} (H : Bytes → δ) (u : Bytes) (hu : u ≠ [])
+/-- **CRLF and LF variants of a text file that fits one read get the same digest** — under the legacy name in
+    any letter case -/
+theorem crlf_lf_same_digest {δ : Type} (H : Bytes → δ) (name : String) (hn : isDos2Unix name = true) (u : Bytes) (hu : u ≠ [])
     (hfree : CRLFfree u = true)
     (ht1 : isTextBlock (u.take CHUNK) = true) (ht2 : isTextBlock ((unix2dos u).take CHUNK) = true) :
-    digest H (runStream "md5-dos2unix" [unix2dos u]) = digest H (runStream "md5-dos2unix" [u]) := by
+    digest H (runStream name [unix2dos u]) = digest H (runStream name [u]) := by
   have hne : unix2dos u ≠ [] := by
     cases u with
     | nil => exact absurd rfl hu
     | cons c r => simp only [unix2dos]; split <;> simp
-  rw [dos2unix_single_read H _ hne, dos2unix_single_read H u hu]
+  rw [dos2unix_single_read H name hn _ hne, dos2unix_single_read H name hn u hu]
   simp [ht1, ht2, dos2unix_unix2dos, dos2unix_of_CRLFfree u hfree]
 
 /-- the sniffing threshold in integers: text iff no NUL and at most 30 % non-text bytes -/
@@ -146,6 +170,8 @@ theorem isTextBlock_threshold (b : Bytes) (hne : b ≠ []) :
     simp [this, h0]
 
 /-! non-vacuity -/
+example : isDos2Unix "md5-dos2unix" = true ∧ isDos2Unix "MD5-DOS2UNIX" = true ∧ isDos2Unix "Md5-Dos2Unix" = true ∧
+    isDos2Unix "md5" = false ∧ isDos2Unix "MD5" = false ∧ isDos2Unix "blake3" = false := by decide +kernel
 example : CRLFfree [104, 105, 10, 120] = true ∧ isTextBlock ([104, 105, 10, 120].take CHUNK) = true ∧
     isTextBlock ((unix2dos [104, 105, 10, 120]).take CHUNK) = true := by decide
 example : dos2unix [97, 13, 10, 13, 13, 10, 10] = [97, 10, 13, 10, 10] := by decide
